@@ -2,10 +2,12 @@
     Model: Num/Vectorize.v ([run_vectorized] with its two loops and the in-place meta update,
     [unpack_meta], [prepare_seed] on top of the C15 model of [get_sub_seed], [str.format] on the token
     language [Lit | Pos | Key]).  This file only states the property theorems; proofs are in
-    Proofs/C18_Vectorize.v and Proofs/C18_Parse.v (the separator-aware parser of the command's standard output).  All statements are for every arity, batch length, constants mask,
+    Proofs/C18_Vectorize.v, Proofs/C18_Parse.v (the separator-aware parser of the command's standard output) and
+    Proofs/C18_Collect.v (the returned array: numpy's collection of the typed row outputs).  All statements are for every arity, batch length, constants mask,
     keyword set and template. *)
 From Coq Require Import List ZArith NArith Arith Bool String.
-From Elfi Require Import Num.Seed Num.Vectorize Proofs.C15_Seed Proofs.C18_Vectorize Proofs.C18_Parse.
+From Elfi Require Import Num.Seed Num.Vectorize Proofs.C15_Seed Proofs.C18_Collect Proofs.C18_Vectorize Proofs.C18_Parse.
+From Coq Require Import Permutation.
 Import ListNotations.
 
 (** The two loops of [run_vectorized] (scan for constants / batch size, then per-row calls with the
@@ -187,10 +189,10 @@ Theorem C18_ok_sound : forall c, vok c = true -> vec_statement c.
 Proof. exact vok_sound. Qed.
 Print Assumptions C18_ok_sound.
 
+(** the operation is uninterpreted: any [op] from the call to its typed output; [model_case] = the model's run with numpy's
+    collection of the outputs of its calls as the returned array *)
 Theorem C18_model_ok :
-  forall inputs constants bs kw meta df,
-    vok {| v_inputs := inputs; v_constants := constants; v_batch_size := bs; v_kw := kw; v_meta := meta;
-           v_dtype_false := df; v_impl := vview (run_vectorized inputs constants bs kw meta df); v_impl_obj := df |} = true.
+  forall op d inputs constants bs kw meta, vok (model_case op d inputs constants bs kw meta) = true.
 Proof. exact vmodel_ok. Qed.
 Print Assumptions C18_model_ok.
 
@@ -199,7 +201,7 @@ Theorem C18_history_ok_sound : forall h, ok_history h = true -> forall c, In (CV
 Proof. exact history_ok_sound. Qed.
 Print Assumptions C18_history_ok_sound.
 
-Theorem C18_history_model_ok : forall constants df calls, ok_history (model_history constants df calls) = true.
+Theorem C18_history_model_ok : forall op constants d calls, ok_history (model_history op constants d calls) = true.
 Proof. exact history_model_ok. Qed.
 Print Assumptions C18_history_model_ok.
 
@@ -207,7 +209,7 @@ Print Assumptions C18_history_model_ok.
     is row-wise again, the mask [1] still holds in both *)
 Example C18_example_history_scalar_then_array :
   map (fun c => match c with CVec v => v_impl v | CExt _ => None end)
-      (model_history (Some [1]) false
+      (model_history (fun _ => OSc (SInt 0)) (Some [1]) DNone
          [ {| h_inputs := [vint 5; VArr [vint 1; vint 2]]; h_batch_size := None; h_kw := []; h_meta := None |};
            {| h_inputs := [VArr [vint 7; vint 8]; VArr [vint 1; vint 2]]; h_batch_size := None; h_kw := []; h_meta := None |} ])
   = [ Some [mkcall [vint 5; VArr [vint 1; vint 2]] [] None];
@@ -345,6 +347,87 @@ Definition ex_parse_case (row2 : list num) : ecase :=
 Example C18_example_parse_case :
   (ok (CExt (ex_parse_case [(6, 1%positive); (4, 1%positive)]%Z)), agree (CExt (ex_parse_case [(6, 1%positive); (4, 1%positive)]%Z)),
    ok (CExt (ex_parse_case [(6, 1%positive)]%Z))) = (true, true, false).
+Proof. vm_compute. reflexivity. Qed.
+
+(** ---- the returned array: "the array whose i-th entry is the operation applied to the i-th row" (proofs in Proofs/C18_Collect.v) ----
+
+    Row outputs carry their kind (bool / int / float / text of some length; scalar or flat list).  The element type numpy gives
+    the collected array is the promotion over the kinds of ALL rows ([promote_all], bool < int64 < float64, texts: the longest).
+    Promotion does not depend on the order of the rows ... *)
+Theorem C18_promotion_order_independent : forall ks ks', Permutation ks ks' -> promote_all ks = promote_all ks'.
+Proof. exact promote_all_perm. Qed.
+Print Assumptions C18_promotion_order_independent.
+
+Theorem C18_result_kind_order_independent :
+  forall outs outs', Permutation outs outs' -> promote_all (kinds outs) = promote_all (kinds outs').
+Proof. exact result_kind_perm. Qed.
+Print Assumptions C18_result_kind_order_independent.
+
+(** ... it is an upper bound of every row's kind, and the least one ... *)
+Theorem C18_promotion_upper_bound : forall ks k, In k ks -> kind_le k (promote_all ks) = true.
+Proof. exact promote_all_upper. Qed.
+Print Assumptions C18_promotion_upper_bound.
+
+Theorem C18_promotion_least :
+  forall ks u, ks <> [] -> (forall k, In k ks -> kind_le k u = true) -> kind_le (promote_all ks) u = true.
+Proof. exact promote_all_least. Qed.
+Print Assumptions C18_promotion_least.
+
+(** ... and a value stored into a kind above its own is representable there and unchanged (same number / same text). *)
+Theorem C18_widening_total : forall x k, kind_le (kind_of_scal x) k = true -> is_other k = false -> exists y, cast k x = Some y.
+Proof. exact cast_le_total. Qed.
+Print Assumptions C18_widening_total.
+
+Theorem C18_widening_keeps_value :
+  forall x k y, kind_le (kind_of_scal x) k = true -> cast k x = Some y -> has_kind k y = true /\ same_value x y = true.
+Proof. exact cast_le_unchanged. Qed.
+Print Assumptions C18_widening_keeps_value.
+
+(** Hence with dtype=None the collection of rows of one shape succeeds, has the promoted element type, and every row keeps its
+    own value: no row is narrowed (in particular not to the type of row 0), whatever the order of the rows. *)
+Theorem C18_collect_no_row_narrowed :
+  forall outs, homogeneous outs = true -> is_other (promote_all (kinds outs)) = false ->
+    exists rets, collect DNone outs = Some (kind_name (promote_all (kinds outs)), rets)
+                 /\ list_eqb (row_unchanged (promote_all (kinds outs))) outs rets = true.
+Proof. exact collect_none_unchanged. Qed.
+Print Assumptions C18_collect_no_row_narrowed.
+
+(** The decidable clause inside [ok] is sound for the statement about the returned array (dtype=False: the entries are the
+    outputs themselves; dtype=None: promoted type, values unchanged; explicit dtype: every entry is its own row cast to it), and
+    numpy's collection satisfies it. *)
+Theorem C18_typed_ok_sound : forall d outs ret, typed_ok d outs ret = true -> typed_statement d outs ret.
+Proof. exact typed_ok_sound. Qed.
+Print Assumptions C18_typed_ok_sound.
+
+Theorem C18_typed_model_ok : forall d outs ret, collect d outs = Some ret -> typed_ok d outs ret = true.
+Proof. exact typed_model_ok. Qed.
+Print Assumptions C18_typed_model_ok.
+
+(** an operation that returns the int literal 0 for its first row and floats later; short and long texts; int and float pairs:
+    the collection under dtype=None, and what an array typed by row 0 alone would hold (rejected by [typed_ok]) *)
+Example C18_example_collect :
+  (collect DNone [OSc (SInt 0); OSc (SFloat 1 2); OSc (SFloat 5 2)],
+   collect DNone [OSc (SFloat 5 2); OSc (SInt 0); OSc (SBool true)],
+   collect DNone [OSc (SStr "lo"); OSc (SStr "high:2.0")],
+   collect DNone [OVec [SInt 0; SInt 1]; OVec [SFloat 1 2; SFloat 1 1]],
+   collect (DGiven KI "int64") [OSc (SFloat (-7) 4); OSc (SBool true)],
+   collect DFalse [OSc (SBool true); OSc (SInt 1)],
+   collect DNone [])
+  = (Some ("float64", [OSc (SFloat 0 1); OSc (SFloat 1 2); OSc (SFloat 5 2)]),
+     Some ("float64", [OSc (SFloat 5 2); OSc (SFloat 0 1); OSc (SFloat 1 1)]),
+     Some ("<U8", [OSc (SStr "lo"); OSc (SStr "high:2.0")]),
+     Some ("float64", [OVec [SFloat 0 1; SFloat 1 1]; OVec [SFloat 1 2; SFloat 1 1]]),
+     Some ("int64", [OSc (SInt (-1)); OSc (SInt 1)]),
+     Some ("object", [OSc (SBool true); OSc (SInt 1)]),
+     Some ("float64", []))%string%Z.
+Proof. vm_compute. reflexivity. Qed.
+
+Example C18_example_typed_by_row0_rejected :
+  (typed_ok DNone [OSc (SInt 0); OSc (SFloat 1 2); OSc (SFloat 5 2)] ("float64", [OSc (SFloat 0 1); OSc (SFloat 1 2); OSc (SFloat 5 2)]),
+   typed_ok DNone [OSc (SInt 0); OSc (SFloat 1 2); OSc (SFloat 5 2)] ("int64", [OSc (SInt 0); OSc (SInt 0); OSc (SInt 2)]),
+   typed_ok DNone [OSc (SInt 0); OSc (SFloat 1 2); OSc (SFloat 5 2)] ("float64", [OSc (SFloat 0 1); OSc (SFloat 0 1); OSc (SFloat 2 1)]),
+   typed_ok DNone [OSc (SStr "lo"); OSc (SStr "high:2.0")] ("<U2", [OSc (SStr "lo"); OSc (SStr "hi")]))%string%Z
+  = (true, false, false, false).
 Proof. vm_compute. reflexivity. Qed.
 
 (** ---- non-vacuity ---- *)
